@@ -180,7 +180,7 @@ func generate(c *core.Ctx, cfgFile, rowsFile string, parts [][2]string) []*scena
 	var order []string
 	core.ParallelFor(len(parts), 16, func(i int) {
 		env := []string{"C10_CAUTH=" + parts[i][0], "C10_SAUTH=" + parts[i][1], "C10_ROWS=" + rowsFile}
-		raws := kit.Generate(c, "Gen_Handshake.tla", cfgFile, tlc.Options{Env: env, Timeout: 12 * time.Minute})
+		raws := kit.Generate(c, "Gen_Handshake.tla", cfgFile, tlc.Options{Env: env, Timeout: 40 * time.Minute})
 		for _, r := range raws {
 			var w struct {
 				Scn struct {
@@ -477,7 +477,7 @@ func run(c *core.Ctx) {
 		wg.Add(1)
 		go func(lv string) {
 			defer wg.Done()
-			kit.ModelCheck(c, "Gen_Handshake.tla", mcCfg, tlc.Options{Workers: 4, Timeout: 20 * time.Minute,
+			kit.ModelCheck(c, "Gen_Handshake.tla", mcCfg, tlc.Options{Workers: 4, Timeout: 40 * time.Minute,
 				Env: []string{"C10_CAUTH=" + lv, "C10_SAUTH=*", "C10_ROWS=" + filepath.Join(c.Tmp, "c10-rows.ndjson")}})
 		}(lv)
 	}
